@@ -10,6 +10,39 @@ COMMON_NOTE = ("Trusted: Lean 4.33 kernel with axioms ⊆ {propext, Classical.ch
                "by correspondence runs only; C compiler, libm, cffi, UFL and Basix taken as given; floating-point rounding outside every theorem.")
 
 CHECKS = {
+    "C01": dict(
+        technique="Lean 4 proof (index flattening, folding, accumulation frame theorems) + tie of the Lean LNodes semantics to compiled C + differential oracle",
+        text=("Theorems on the cores every cell kernel rests on (row-major flattening in range/injective for any rank, global_index value, float_product, "
+              "A ← A + T) hold for all inputs; the per-program part executes every exported kernel AST in the Lean semantics (Float) against the compiled C kernel "
+              "and compares every cell kernel of the corpus with an independent oracle (own UFL lowering flags + NumPy interpreter + Basix) at rel. tol 1e-10. "
+              "IR-level cores (tables, factorisation) are added by the IR cluster theorems when present. Floating point: partial."),
+        design="DESIGN.md §6 C01"),
+    "C02": dict(
+        technique="Lean 4 proof (macro layout bijections, facet maps, complete reference-geometry tables by decide) + regenerated tables + independent facet oracle",
+        text=("facet_map_vertices/affine, refgeom_tables, refgeom_access, entity_by_restriction, macro_layout are proved (finite tables completely, layouts for any sizes); "
+              "Generated/RefCells.lean is regenerated from /repo on every run; C kernels are compared with a NumPy+Basix oracle for EVERY local entity of every cell type."),
+        design="DESIGN.md §6 C02"),
+    "C03": dict(
+        technique="Lean 4 proof (facet permutation groups S2/S3/D4 for all points; flag_false_independent over the LNodes semantics) + numbering-invariance search",
+        text=("perm_group_*, perm_compose, aligned_invariance, table_access_spec, drop_perm_axis, flag_false_independent are proved; the generator obligation "
+              "(flag false ⇒ AST does not read quadrature_permutation) is checked on every interior-facet kernel; compiled kernels are run for all/sampled pairs of local numberings."),
+        design="DESIGN.md §6 C03"),
+    "C04": dict(
+        technique="Lean 4 proof (expression tensor layout, descriptor model) + correspondence + differential oracle",
+        text=("expr_layout(_inj), expr_descriptor, orig_positions, expr_num_constants are proved for any sizes; descriptor fields of real expressions (IR, generated C, cffi read-back) are "
+              "compared with the model; every expression kernel of the corpus is compared with the pointwise oracle for every local facet."),
+        design="DESIGN.md §6 C04"),
+    "C05": dict(
+        technique="Lean 4 proof (noninterference: unread_irrelevant, reads_data_independent; block tiling) + read sets of every kernel + NaN poisoning",
+        text=("For kernels that only read w (decidable readOnly), a run whose recorded reads of w avoid a set D is unaffected by ANY change of w inside D, and the read list is independent "
+              "of scalar data (theorems); the driver computes the read sets of w and c for every kernel over all entity/permutation tuples and compares them with the blocks computed from UFL and "
+              "with enabled_coefficients; layout prefix sums are proved to tile and are compared with the real IR."),
+        design="DESIGN.md §6 C05"),
+    "C06": dict(
+        technique="Lean 4 proof (argsort as a relation, offsets, id expansion) + correspondence on real and synthetic FormIRs + descriptor read-back + summation search",
+        text=("ids_sorted, triples_preserved, offsets_delimit, kernels_of_type, dispatch, expand_ids, minus_one_only_otherwise, enum_order hold for every id/domain list; the model is compared "
+              "with integral_data/_compute_form_ir on real and synthetic inputs; compiled descriptors are read back and kernels summed per (type,id)."),
+        design="DESIGN.md §6 C06"),
     "C07": dict(
         technique="Lean 4 proof (relational frame theorems over the LNodes semantics) + proved static certificate per kernel + differential C runs",
         text=("Theorems pure_accumulates / call_adds / pure_history / incrSum_perm / inputs_unchanged hold for every kernel satisfying the decidable "
@@ -20,8 +53,44 @@ CHECKS = {
         technique="Lean 4 proof (errors of the instrumented semantics are independent of scalar data: oob_data_independent) + exhaustive shape runs per kernel",
         text=("bounds_sound: one error-free run over the one-point scalar domain with arrays of exactly the contract extents proves absence of out-of-bounds "
               "reads/writes for ALL scalar inputs; the check enumerates EVERY valid (entity, permutation) tuple for every kernel of the corpus. Extents come from "
-              "UFL/Basix, not from FFCx's IR. C kernels additionally run with NaN sentinels/canaries (thorough: larger corpus)."),
+              "UFL/Basix, not from FFCx's IR. C kernels additionally run with NaN sentinels/canaries."),
         design="DESIGN.md §6 C08"),
+    "C09": dict(
+        technique="Lean 4 proof (dtype merge laws, conj/real/imag folding sound on real operands) + complete math-table scan + four-way differential vs oracle",
+        text=("mathfn_fold_sound, mergeDtypes_* are proved; the math-function table is scanned completely from source; every selected form is compiled for the four scalar types and compared "
+              "with the oracle on real and complex data (complex mode: oracle evaluates UFL's sesquilinear lowering in complex arithmetic). Precision agreement is floating point: differential."),
+        design="DESIGN.md §6 C09"),
+    "C10": dict(
+        technique="Lean 4 proof (sum-factorisation identity, flat/pair re-indexing, diagonal, clamp bound) + option-pair differential runs",
+        text=("sum_factorization_identity(3), flat_pair_bijective, diagonal_of_outer, clamp_bound_real are proved for all rules/sizes; kernels compiled with/without sum_factorization, "
+              "part='diagonal', and swept table tolerances are compared with each other and with the oracle; inapplicable options must leave the generated code unchanged."),
+        design="DESIGN.md §6 C10"),
+    "C11": dict(
+        technique="Lean 4 proof (tensor-product rule moments, vertex scheme, grouping) + exact rational closed forms + per-integral-rule oracle",
+        text=("tensor_rule_exact(3/_upto), moment_linear, vertex_rule_exact1, group_partition are proved; degree-q kernels are compared on random affine cells with exact rational monomial integrals "
+              "(quick: 10 degrees up to 15, thorough 0..30); forms with several rules on one subdomain are compared with per-integral quadrature; default degree vs high degree."),
+        design="DESIGN.md §6 C11"),
+    "C12": dict(
+        technique="Lean 4 proof (sorted/dedup canonicalisation, per-site invariance, complete site inventory by decide) + source scanner + subprocess differential",
+        text=("Every order/identity-sensitive site found by the AST scanner must be modelled (inventory_complete, decide) and each modelled site has an invariance theorem; "
+              "the failing-input search regenerates code in subprocesses with different PYTHONHASHSEED and histories and compares bytes."),
+        design="DESIGN.md §6 C12"),
+    "C13": dict(
+        technique="Lean 4 proof (injectivity of the pre-hash encoding modulo digests, tag injectivity, identifier validity) + captured pre-hash strings + separation/stability search",
+        text=("encode_inj (explicit digest-injectivity hypothesis), join_inj, concat_fixed_inj, options_sorted_inj, tag_inj, ident_valid, names_distinct are proved; the strings handed to SHA-1 are captured "
+              "from the real code and compared byte-for-byte with the model; request pairs differing in one ingredient must separate; names are stable across processes/hash seeds/histories."),
+        design="DESIGN.md §6 C13"),
+    "C14": dict(
+        technique="Lean 4 proof (inductive invariant over every reachable state of an N-process transition system) + forced-schedule correspondence on the real jit.py",
+        text=("at_most_one_builder, marker_implies_complete, load_only_complete, reuse, timeout_bound, no_failure_all_succeed hold for every N, interleaving and fault choice at the granularity "
+              "of the file-system steps; the real compile_forms is run under a deterministic scheduler on all 2-process schedules up to the first marker and seeded 3-process schedules. "
+              "Atomicity of OS steps and the import machinery are trusted (partial)."),
+        design="DESIGN.md §6 C14, App. B"),
+    "C15": dict(
+        technique="Lean 4 proof (same transition system with fail/kill/retry transitions) + fault injection on the real jit.py",
+        text=("fail_releases_lock, kill_safe, marker_after_compile, globals_restored hold in every reachable state with any faults; every fail/kill point × later request is replayed on the real code, "
+              "checking exception, directory contents, root logger handlers, stdout, and the next request's outcome."),
+        design="DESIGN.md §6 C15, App. B"),
     "C17": dict(
         technique="Lean 4 proof (operator folding sound for all operands in any field; optimiser algebra) + structural correspondence + exact differential execution",
         text=("add/radd/sub/rsub/mul/rmul/div/rdiv/neg_sound, float_product_sound, global_index_value are proved for ALL operand trees and values over any lawful field; "
@@ -29,6 +98,11 @@ CHECKS = {
               "Optimiser: prod_perm_sound / licm_factor_sound / execL_append (+ section fusion partial); the state-dependent side conditions are validated per kernel by "
               "executing optimised and unoptimised ASTs exactly over Rat (per-program, labelled so)."),
         design="DESIGN.md §6 C17"),
+    "C20": dict(
+        technique="Lean 4 proof (option merge precedence, CLI collection, complete template tables by decide) + correspondence + real ffcx runs compiled stand-alone",
+        text=("merge_precedence, cli_only_given, decl_defined, format_code_concat, sanitise_ident are proved (template/option tables regenerated from /repo); get_options/parse_args are compared with the model "
+              "on random option sources; generated .h/.c are compiled stand-alone, symbols checked with nm, kernels compared bitwise with the JIT path."),
+        design="DESIGN.md §6 C20"),
 }
 
 
